@@ -173,7 +173,7 @@ class Prop:
         flavours = ["dbg"] if ctx.quick() else ["dbg", "asan"]
         ctx.extra["flavours"] = flavours
         if replay:
-            exe = ctx.exe("monitor_drv", "dbg")
+            exe = mc.monitor_exe(ctx, "dbg")
             cases = mc.read_case_file(replay)
             for c, (ib, mb, bad) in zip(cases, r.run(exe, cases)):
                 for i, blk in enumerate(ib or []):
@@ -187,16 +187,16 @@ class Prop:
             # an obligation or tie no longer checks: the model (it interprets skeletons that are not the declared ones
             # any more) is no reference, and two disagreements with it would end the run.  Look for a concrete failing
             # input under the oracle alone first: corpus, every listed configuration, random programs.
-            exe = ctx.exe("monitor_drv", "dbg")
+            exe = mc.monitor_exe(ctx, "dbg")
             r.searching = True
             try:
                 self.search(ctx, r, exe)
             finally:
                 r.searching = False
-            if ctx.stop():
-                return
+            if ctx.stop() or ctx.extra.get("anon_sync"):
+                return          # (fallback build of the harness: its traces do not compare with the model's)
         for fl in flavours:
-            exe = ctx.exe("monitor_drv", fl)
+            exe = mc.monitor_exe(ctx, fl)
             cases = mc.corpus_cases("C15")
             r.judge(exe, cases)
             ctx.count("corpus_cases", len(cases))
